@@ -340,7 +340,7 @@ pub fn replay(part: &str, case: serde_json::Value) -> Option<CaseResult> {
 pub fn meta() -> EvidenceMeta {
     EvidenceMeta {
         level: "exploration",
-        rule: "cases = 1-4 appenders on the root, each with a chain of 0-5 filters (scripted Accept/Neutral/Reject that log their consultation, real ThresholdFilters at generated levels wrapped to observe the consultation) and a scripted outcome (Ok / Err(tag)), root level generated, 1-5 records at generated levels; plus exhaustive sweeps (121 chains <= 4 x failing/healthy x position x companion; threshold truth table). Oracle per appender independently: filters consulted = chain prefix up to and including the first non-Neutral answer, delivered iff that answer is Accept or none exists, another appender's rejection/error never changes this, error handler receives exactly the tags of failing delivered appenders once each; no consultation for records the logger does not admit. non-trivial = >=2 appenders with different verdicts, or a failing appender before a healthy one, or an Accept before a Reject in one chain".into(),
+        rule: "cases = 1-4 appenders on the root, each with a chain of 0-5 filters (scripted Accept/Neutral/Reject that log their consultation, real ThresholdFilters at generated levels wrapped to observe the consultation) and a scripted outcome (Ok / Err(tag)), root level generated, 1-5 records at generated levels; plus exhaustive sweeps (121 chains <= 4 x failing/healthy x position x companion; threshold truth table). Oracle per appender independently: filters consulted = chain prefix up to and including the first non-Neutral answer, delivered iff that answer is Accept or none exists, another appender's rejection/error never changes this, error handler receives exactly the tags of failing delivered appenders once each; no consultation for records the logger does not admit. Filters and appender references are attached through a mix of singular and bulk builder calls; in 15% of the cases the error handler of another logger panicked earlier on the thread (caught). non-trivial = >=2 appenders with different verdicts, or a failing appender before a healthy one, or an Accept before a Reject in one chain".into(),
         assumptions: vec!["filters and appenders are harness implementations (plus the real ThresholdFilter)".into()],
         mutants_caught: vec![],
     }
